@@ -26,6 +26,7 @@ type LoopSpec struct {
 	Decreases  *Clause
 	Modifies   []Clause // optional explicit loop frame
 	HasMod     bool
+	Lemmas     []Clause
 }
 
 type AtAssert struct {
@@ -57,13 +58,18 @@ type Contract struct {
 	Unreach    []int // block indices declared unreachable (cover guard)
 	Abstract   bool  // body translated with havoc tolerance; only listed obligations
 	Uses       map[string]bool
+	Lemmas     []Clause // proved lemma instances assumed at entry
+	LemmasRet  []Clause // ... at return (may mention result / old)
 	File       string
 	Line       int
+	IsPred     bool
+	PredParams []string
+	PredBody   *Clause
 }
 
 var clauseKW = map[string]bool{"requires": true, "ensures": true, "modifies": true, "nopanic": true, "maypanic": true,
 	"panics_when": true, "trusted": true, "pure": true, "noalloc": true, "mayalloc": true, "terminates": true, "decreases": true, "alloc": true,
-	"loop": true, "at": true, "func": true, "extern": true, "pkg": true, "uses": true, "abstract": true, "unreachable": true}
+	"loop": true, "at": true, "func": true, "extern": true, "pkg": true, "uses": true, "abstract": true, "unreachable": true, "lemma": true, "lemma_ret": true, "pred": true}
 
 var reImp = regexp.MustCompile(`<==>|==>`)
 
@@ -281,6 +287,23 @@ func ParseContractFile(path, defaultPkg string) ([]*Contract, error) {
 		switch word {
 		case "pkg":
 			pkg = rest
+		case "pred":
+			// pred NAME(p1, p2) = EXPR   (macro, expanded at use)
+			eq := strings.Index(rest, "=")
+			lp := strings.Index(rest, "(")
+			rp := strings.Index(rest, ")")
+			if eq < 0 || lp < 0 || rp < lp || eq < rp {
+				return nil, fmt.Errorf("%s:%d: bad pred definition", path, ln)
+			}
+			pc := &Contract{Pkg: pkg, Name: "pred " + strings.TrimSpace(rest[:lp]), Loops: map[int]*LoopSpec{}, Uses: map[string]bool{}, File: path, Line: ln, IsPred: true}
+			for _, a := range strings.Split(rest[lp+1:rp], ",") {
+				if a = strings.TrimSpace(a); a != "" {
+					pc.PredParams = append(pc.PredParams, strings.Fields(a)[0])
+				}
+			}
+			cur = pc
+			out = append(out, cur)
+			pend = &pending{kw: "predbody", rest: strings.TrimSpace(rest[eq+1:]), line: ln}
 		case "extern":
 			// extern func NAME
 			r := strings.TrimSpace(strings.TrimPrefix(rest, "func"))
@@ -350,6 +373,22 @@ func (c *Contract) addClause(kw, rest, path string, line int) error {
 			}
 			c.Modifies = append(c.Modifies, cl)
 		}
+	case "predbody":
+		cl, err := mkClause(rest, path, line)
+		if err != nil {
+			return err
+		}
+		c.PredBody = &cl
+	case "lemma", "lemma_ret":
+		cl, err := mkClause(rest, path, line)
+		if err != nil {
+			return err
+		}
+		if kw == "lemma" {
+			c.Lemmas = append(c.Lemmas, cl)
+		} else {
+			c.LemmasRet = append(c.LemmasRet, cl)
+		}
 	case "nopanic":
 	case "maypanic":
 		c.MayPanic = true
@@ -416,6 +455,12 @@ func (c *Contract) addClause(kw, rest, path string, line int) error {
 				return err
 			}
 			c.loop(k).Invariants = append(c.loop(k).Invariants, cl)
+		case "lemma":
+			cl, err := mkClause(ex, path, line)
+			if err != nil {
+				return err
+			}
+			c.loop(k).Lemmas = append(c.loop(k).Lemmas, cl)
 		case "decreases":
 			cl, err := mkClause(ex, path, line)
 			if err != nil {
